@@ -232,6 +232,16 @@ fn random_case(r: &mut Rng, id: String, dirty: bool) -> Case {
         }
     }
     for c in 1..=nconn { if intx[c as usize] { ops.push(cmd_op(c, &[b"EXEC"])); } }
+    if r.chance(1, 5) {
+        // a transaction aborted by WATCH: its writes are neither executed nor logged
+        let k = *r.pick(&[&b"k1"[..], b"k2", b"ka", b"kb"]);
+        ops.push(cmd_op(1, &[b"WATCH", k]));
+        ops.push(cmd_op(nconn, &[b"SET", k, b"touched"]));
+        ops.push(cmd_op(1, &[b"MULTI"]));
+        ops.push(cmd_op(1, &[b"SET", k, b"lost"]));
+        ops.push(cmd_op(1, &[b"RPUSH", b"l2", b"lost"]));
+        ops.push(cmd_op(1, &[b"EXEC"]));
+    }
     let dump = dump_reqs();
     ops.push(aofread_op());
     ops.push(aofreplay_op(1, &dump));
